@@ -82,6 +82,9 @@ func scan1(f *pipesup.File, procs, perturb int, seed int64, cancelAt int64) resu
 	}
 	var res result
 	var kept []osm.Object
+	for k := perturb >> 5 & 3; k > 0; k-- { // the rarely used entry point: Header() before the first Scan
+		sc.Header()
+	}
 	for sc.Scan() {
 		o := sc.Object()
 		kept = append(kept, o)
@@ -135,6 +138,9 @@ func scanRich(data []byte, procs, perturb int, seed int64, skip [3]bool) richRes
 		}
 		var res richRes
 		var kept []osm.Object
+		for k := perturb >> 5 & 3; k > 0; k-- {
+			sc.Header()
+		}
 		for sc.Scan() {
 			o := sc.Object()
 			kept = append(kept, o)
@@ -192,6 +198,9 @@ func richCases(rng *rand.Rand, seed int64) []*wire.Case {
 	}
 	for k, skip := range skips {
 		perturb := rng.Intn(8)
+		if rng.Intn(3) == 0 {
+			perturb |= (1 + rng.Intn(2)) << 5
+		}
 		p := procs
 		if k == 0 {
 			p = 1 + rng.Intn(2*procs)
@@ -255,6 +264,8 @@ func itemsToks(c *wire.Case, f *pipesup.File) {
 			c.Int(2).Int(pipesup.ETrunc)
 		case it.Kind == pipesup.KBlock:
 			c.Int(0).Int(int64(it.N))
+		case it.Kind == pipesup.KForeign: // the reader reports "unexpected fileblock": a read error
+			c.Int(2).Int(pipesup.EOther)
 		default:
 			c.Int(1).Int(pipesup.EOther)
 		}
@@ -308,6 +319,14 @@ func main() {
 			perturb := rng.Intn(16)
 			if rng.Intn(5) == 0 {
 				perturb = 0
+			}
+			if rng.Intn(3) == 0 { // Header() once or twice before the first Scan
+				perturb |= (1 + rng.Intn(2)) << 5
+			}
+			if rng.Intn(7) == 0 && len(f.Items) >= 3 && f.Trunc == 0 { // a foreign fileblock between data blocks
+				f.Items[1+rng.Intn(len(f.Items)-2)] = pipesup.Item{Kind: pipesup.KForeign}
+				f.Build()
+				w.Count("foreign_block")
 			}
 			base := scan(f, 1, 0, seed, -1)
 			r := scan(f, procs, perturb, seed, -1)
@@ -382,6 +401,50 @@ func main() {
 		}
 		w.Count("stress_trials")
 	}
+	// size thresholds: blocks holding exactly / just below / just above round numbers of objects
+	// (batching, buffer and channel thresholds), followed by further blocks, procs >= 2
+	sizes := []int{4096}
+	if a.Tier == "thorough" {
+		sizes = []int{12, 13, 16, 17, 32, 33, 2048, 4095, 4096, 4097, 8000, 8176, 8177, 8192, 12288, 32768}
+	}
+	for si, big := range sizes {
+		procs := 2 + rng.Intn(3)
+		f := &pipesup.File{Header: true, Wide: true}
+		nb := 3*procs + 2
+		at := rng.Intn(procs)
+		for b := 0; b < nb; b++ {
+			n := 1 + rng.Intn(3)
+			if b == at || (b == at+procs && a.Tier == "thorough") {
+				n = big
+			}
+			f.Items = append(f.Items, pipesup.Item{Kind: pipesup.KBlock, N: n})
+		}
+		f.Build()
+		r := scan(f, procs, 0, a.Seed*101+int64(si), -1)
+		c := &wire.Case{Class: "wide"}
+		c.Int(5).Int(int64(procs)).Bool(false)
+		itemsToks(c, f)
+		c.Ints(r.IDs).Int(r.Err)
+		if r.Retain != "" {
+			c.OracleFail = r.Retain
+		}
+		exp := f.Expected()
+		first := -1
+		for i := range r.IDs {
+			if i >= len(exp) || r.IDs[i] != exp[i] {
+				first = i
+				break
+			}
+		}
+		c.Desc = map[string]interface{}{"procs": procs, "items": f.Items, "ids": "object j of block b has id b*100000+j+1", "delivered_count": len(r.IDs),
+			"expected_count": len(exp), "first_difference_at": first, "err": r.Err}
+		if first >= 0 {
+			c.Desc.(map[string]interface{})["delivered_around_difference"] = r.IDs[max0(first-2):minInt(first+4, len(r.IDs))]
+			c.Desc.(map[string]interface{})["expected_around_difference"] = exp[max0(first-2):minInt(first+4, len(exp))]
+		}
+		w.Add(c)
+		w.Count(fmt.Sprintf("wide:%d", big))
+	}
 	nRich := int(30 * a.Scale)
 	if a.Tier == "thorough" {
 		nRich *= 10
@@ -446,6 +509,20 @@ func main() {
 		fmt.Fprintln(os.Stderr, err)
 		os.Exit(1)
 	}
+}
+
+func max0(a int) int {
+	if a < 0 {
+		return 0
+	}
+	return a
+}
+
+func minInt(a, b int) int {
+	if a < b {
+		return a
+	}
+	return b
 }
 
 func bucket(p int) int {
